@@ -12,6 +12,21 @@ SITES = [
          params_map={"symbol": "symbol", "sampling": "sampling"}, params=["symbol", "sampling"],
          param_types={"symbol": "String", "sampling": "Rat × Rat"}, ret="String × (Rat × Rat)", modes=["rat"]),
 ]
+def _state(name, file, cls):
+    return dict(gen="IntegralsCache", name=name, file=file, cls=cls, emitter="py2lean_state:emit_mutable_state", modes=["rat"])
+
+
+# inventory of the mutable state of the classes whose caches the model covers (a cache added later changes these lists)
+SITES += [
+    _state("stateFieldIntegrator", "abtem/integrals.py", "FieldIntegrator"),
+    _state("stateScatteringFactor", "abtem/integrals.py", "ScatteringFactorProjectionIntegrals"),
+    _state("stateQuadrature", "abtem/integrals.py", "QuadratureProjectionIntegrals"),
+    _state("stateIntegralTable", "abtem/integrals.py", "ProjectionIntegralTable"),
+    _state("stateFieldBuilder", "abtem/potentials/iam.py", "_FieldBuilder"),
+    _state("stateFieldBuilderFromAtoms", "abtem/potentials/iam.py", "_FieldBuilderFromAtoms"),
+    _state("statePotential", "abtem/potentials/iam.py", "Potential"),
+    _state("stateBaseField", "abtem/potentials/iam.py", "BaseField"),
+]
 FINGERPRINTS = {
     "ScatteringFactorProjectionIntegrals.get_scattering_factor": ("abtem/integrals.py", "ScatteringFactorProjectionIntegrals.get_scattering_factor"),
     "ScatteringFactorProjectionIntegrals._calculate_scattering_factor": ("abtem/integrals.py", "ScatteringFactorProjectionIntegrals._calculate_scattering_factor"),
